@@ -251,7 +251,7 @@ func (w *azWorld) operator() {
 	}
 }
 
-var azNonceKinds = []string{"own", "other-node", "fresh32", "token-unused", "token-used", "token-expired", "token-never-issued", "garbage"}
+var azNonceKinds = []string{"own", "other-node", "fresh32", "token-unused", "token-used", "token-expired", "token-never-issued", "garbage", "token-from-storage-id"}
 var azWrappedKinds = []string{"none", "none", "none", "match", "other-nonce", "other-key", "foreign-wrapper", "garbage"}
 var azRewrappedKinds = []string{"none", "none", "none", "none", "match", "mismatch-nonce", "mismatch-key", "by-removed", "wrong-keyid", "garbage", "reflected-server-answer"}
 
@@ -327,6 +327,35 @@ func (w *azWorld) fetch(step int) {
 		}
 	case "token-never-issued":
 		nonce, _ = proto.Marshal(&types.ServerLedActivationTokenNonce{Nonce: world.RandBytes(32), HmacKeyBytes: world.RandBytes(32)})
+	case "token-from-storage-id":
+		// what someone who can list the server's storage knows about an outstanding token - its storage ID -
+		// dressed up as a token: the decoded ID (or its first half, the nonce) with a key of the presenter's
+		// choosing. It is not a token created by this server.
+		var src *azToken
+		for _, t := range w.tokens {
+			if w.tokenPresent(t) && !t.expired {
+				src = t
+			}
+		}
+		raw, ok := []byte(nil), false
+		if src != nil {
+			raw, ok = tokensBase58Decode(src.id)
+		}
+		if !ok || len(raw) < 32 {
+			f.Nonce = "token-never-issued"
+			nonce, _ = proto.Marshal(&types.ServerLedActivationTokenNonce{Nonce: world.RandBytes(32), HmacKeyBytes: world.RandBytes(32)})
+			break
+		}
+		tn := &types.ServerLedActivationTokenNonce{Nonce: raw, HmacKeyBytes: world.RandBytes(32)}
+		switch w.rng.Intn(4) {
+		case 0:
+			tn.Nonce = raw[:32]
+		case 1:
+			tn.HmacKeyBytes = raw[32:]
+		case 2:
+			tn.Nonce, tn.HmacKeyBytes = raw[:32], raw[32:]
+		}
+		nonce, _ = proto.Marshal(tn)
 	case "garbage":
 		nonce = world.RandBytes([]int{1, 16, 31, 33, 48}[w.rng.Intn(5)])
 	}
@@ -469,7 +498,24 @@ func (w *azWorld) fetch(step int) {
 		w.rec.Arm(k, kind)
 		faultDesc = fmt.Sprintf("%s at storage operation %d", kind, k)
 	}
+	fw, _ := w.s.SW.(*world.FlakyWrapper)
+	if fw != nil && faultDesc == "" && w.rng.Intn(3) == 0 {
+		// the key service behind the storage wrapper fails one call: a record that cannot be opened or sealed
+		// right now is neither an authorization nor its absence
+		if w.rng.Intn(3) == 0 {
+			fw.Arm(0, 1+w.rng.Intn(2))
+		} else {
+			fw.Arm(1+w.rng.Intn(3), 0)
+		}
+	}
 	p, st := engine.Guard(func() { resp, err = registration.FetchNodeCredentials(w.s.Ctx, w.s.Store, req, w.callOpts()...) })
+	if fw != nil {
+		if n, _, _ := fw.Delivered(); n > 0 {
+			r.Count("fetches_judged_with_a_failing_storage_wrapper_call", 1)
+			w.log("storage wrapper: one call failed")
+		}
+		fw.Arm(0, 0)
+	}
 	if w.rec != nil {
 		if faultDesc != "" && w.rec.Fired() {
 			r.Count("fetches_judged_with_a_storage_fault", 1)
@@ -564,7 +610,8 @@ func (w *azWorld) witness(f azFetch) map[string]any {
 
 func runAzCase(c *engine.Ctx, ac azCase) {
 	var rec *recstore.Rec
-	cfg := world.ServerCfg{Backend: ac.Backend, StorageWrap: ac.Wrap, RegWrap: true}
+	// the storage wrapper (where there is one) sits behind a key service that can be made to fail single calls
+	cfg := world.ServerCfg{Backend: ac.Backend, StorageWrap: ac.Wrap, StorageWrapKind: world.WrapFlaky, RegWrap: true}
 	if ac.Faults {
 		cfg.Wrap = func(in nodeenrollment.Storage) nodeenrollment.Storage {
 			rec = recstore.New(in)
@@ -628,6 +675,7 @@ func runAuthz(c *engine.Ctx) engine.Result {
 	r.Require("issued_under:(a) existing matching record", 20)
 	r.Require("issued_under:(b) unused unexpired token", 10)
 	r.Require("fetches_judged_with_a_storage_fault", 50)
+	r.Require("fetches_judged_with_a_failing_storage_wrapper_call", 20)
 	r.Require("issued_under:(c) sealed registration info", 20)
 	r.Require("refused", 500)
 	for _, k := range []string{"other-node", "fresh32", "token-used", "token-expired", "token-never-issued", "garbage"} {
